@@ -843,3 +843,34 @@ RP("c16-attach-through-forwarder", "C16", "evolutions5/E22_refactor_5.diff")
 RP("c20-attach-through-forwarder", "C20", "evolutions5/E22_refactor_5.diff")
 RP("c03-guard-form-continue", "C03", "evolutions5/E21_refactor_4.diff")
 RP("c17-any-over-plugins", "C17", "evolutions5/E21_refactor_6.diff")
+
+# round 10 / campaign 9
+MP("c01-config-refilled-in-place", "C01", "C01.R2", "C01-i1/patch.diff")
+MP("c01-limit-read-through-float", "C01", "C01.R1", "C01-i2/patch.diff")
+MP("c02-search-root-one-level-down", "C02", "C02.VAR", "C02-i2/patch.diff")
+MP("c03-read-before-the-lock", "C03", "C03.PUBLISH", "C03-i1/patch.diff")
+MP("c06-threadlocal-default-shared", "C06", "C06.COMPLETE", "C06-i1/patch.diff")
+MP("c06-cut-in-bytes", "C06", "C06.TOTAL", "C06-i2/patch.diff")
+MP("c07-entry-dropped-at-the-budget", "C07", "C07.ENTRY", "C07-i2/patch.diff")
+MP("c09-wait-divided-by-pending", "C09", "C09.C", "C09-i2/patch.diff")
+MP("c09-second-task-handler", "C09", "C09.D", "C09-i3/patch.diff")
+MP("c11-period-zero-replaced", "C11", "C11.LIMITS", "C11-i2/patch.diff")
+MP("c14-index-zero-left-out", "C14", "C14.D", "C14-i2/patch.diff")
+MP("c15-handler-wide-pending-flag", "C15", "C15.ONCE", "C15-i1/patch.diff")
+MP("c16-last-fire-in-millis", "C16", "C16.ONCE", "C16-i2/patch.diff")
+MP("c17-failure-raised-not-returned", "C17", "C17.VALUE", "C17-i3/patch.diff")
+MP("c19-cut-without-trailing-slash", "C19", "C19.FRAME", "C19-i2/patch.diff")
+MP("c20-entry-filled-after-publication", "C20", "C20.LOAD", "C20-i1/patch.diff")
+MP("c20-order-truncated", "C20", "C20.LOAD", "C20-i2/patch.diff")
+MP("c20-config-by-position", "C20", "C20.LOAD", "C20-i3/patch.diff")
+RP("c09-done-callback-as-partial", "C09", "evolutions6/E23_refactor_1.diff")
+RP("c09-lock-taken-by-hand", "C09", "evolutions6/E23_refactor_2.diff")
+RP("c12-lock-taken-by-hand-and-helper", "C12", "evolutions6/E23_refactor_5.diff")
+RP("c10-evaluation-result-namedtuple", "C10", "evolutions6/E25_refactor_2.diff")
+RP("c17-evaluation-result-namedtuple", "C17", "evolutions6/E25_refactor_2.diff")
+RP("c19-app-frame-match-namedtuple", "C19", "evolutions6/E25_refactor_3.diff")
+RP("c05-truncated-string-namedtuple", "C05", "evolutions6/E25_refactor_6.diff")
+RP("c16-processed-variable-namedtuple", "C16", "evolutions6/E25_refactor_6.diff")
+RP("c04-unit-helpers", "C04", "evolutions6/E24_refactor_1.diff")
+RP("c09-named-wait-constant", "C09", "evolutions6/E24_refactor_4.diff")
+RP("c08-named-wire-widths", "C08", "evolutions6/E24_refactor_5.diff")
